@@ -849,6 +849,16 @@ def _(g):
             T(O("sq.withdraw_uni_position", g.name, {"vault": LAST, "pos": pos}))]
 
 
+@entry("sq.withdraw_uni_position:lp_taken_back_in_the_pool", "squeeth", "position_missing_or_in")
+def _(g):
+    """the vault holds the LP position, but the pool no longer regards it as lent (the owner called the pool's public
+    transfer_position_in himself): the pool refuses the hand-over - after the vault's own check has passed"""
+    pos, add = _sq_lp(g, 0)
+    pm = _pool_mw(g)
+    return [add, _sq_open(g, dep="3", ratio=3.0, pos=pos), O("uni.transfer_in", pm["name"], {"pos": pos}),
+            T(O("sq.withdraw_uni_position", g.name, {"vault": LAST, "pos": pos}))]
+
+
 @entry("sq.burn_and_withdraw:unknown_vault", "squeeth", "unknown_vault")
 def _(g):
     return [T(O("sq.burn_and_withdraw", g.name, {"vault": {"id": 9999}, "burn": "0", "withdraw": "1"}))]
